@@ -76,6 +76,8 @@ class World:
         self.expected = []    # (line index, expected output or None)
         self.removed_descr = {}   # handle -> (descriptor copy, state copy or None) for re-creation
         self.new_n = 0
+        self.hot = []             # handles touched recently: reused with high probability (multi-step interactions)
+        self.stale_entities = {}  # handle -> entity fetched in an earlier script (possibly outdated by now)
         self.late_writes = False  # C03: after the `with` block write into everything that was handed out
         self.scribble_results = True
         self.retained = []        # C03: (label, object, canonical value when it was published)
@@ -221,6 +223,20 @@ class World:
     def descr_handles(self, pred=lambda d: True):
         return sorted(d.Handle for d in self.mdib.descriptions.objects if pred(d))
 
+    def pick(self, pool):
+        """choose from pool, preferring recently touched handles"""
+        r = self.rng
+        hot = [h for h in self.hot if h in pool]
+        if hot and r.random() < 0.45:
+            h = r.choice(hot)
+        else:
+            h = r.choice(pool)
+        if h in self.hot:
+            self.hot.remove(h)
+        self.hot.append(h)
+        del self.hot[:-6]
+        return h
+
     # ---------------- script generation (type/state directed, 80 % enabled ops)
     def gen_script(self):
         r = self.rng
@@ -238,7 +254,7 @@ class World:
                 pool = own if (y < 0.85 and own) else (other or own or ['nohandle'])
                 if y > 0.97:
                     pool = ['nohandle', '']
-                h = r.choice(pool)
+                h = self.pick(pool)
                 z = r.random()
                 if z < 0.55:
                     script['calls'].append(['get', h])
@@ -299,13 +315,14 @@ class World:
     def _gen_descr_calls(self, script):
         r = self.rng
         alld = self.descr_handles()
-        leafish = self.descr_handles(lambda d: not d.is_context_descriptor and d.parent_handle is not None
+        leafish = self.descr_handles(lambda d: d.parent_handle is not None
                                      and d.NODETYPE.localname not in ('MdsDescriptor', 'SystemContextDescriptor', 'ScoDescriptor'))
+        templates = [h for h in leafish if not self.mdib.descriptions.handle.get_one(h).is_context_descriptor]
         intx = []
         for _ in range(r.choice([1, 1, 2, 2, 3, 4])):
             z = r.random()
             if z < 0.3 and leafish:
-                h = r.choice(leafish) if r.random() < 0.95 else 'nohandle'
+                h = self.pick(leafish) if r.random() < 0.95 else 'nohandle'
                 script['calls'].append(['getDescr', h])
                 if h in alld and h not in intx:
                     intx.append(h)
@@ -319,14 +336,14 @@ class World:
                 # remove: mostly leaves (metrics / alert conditions / operations), sometimes an inner node
                 leaves = [h for h in leafish if not self.mdib.descriptions.parent_handle.get(h)]
                 pool = leaves if (leaves and r.random() < 0.75) else leafish
-                script['calls'].append(['removeDescr', r.choice(pool)])
+                script['calls'].append(['removeDescr', self.pick(pool)])
             elif z < 0.8:
                 # add: re-create a removed descriptor (same handle) or clone a template under the same parent
                 if self.removed_descr and r.random() < 0.5:
                     h = r.choice(sorted(self.removed_descr))
                     script['calls'].append(['addDescr', h, None, r.random() < 0.85])
-                elif leafish:
-                    tmpl = r.choice(leafish)
+                elif templates:
+                    tmpl = r.choice(templates)
                     script['calls'].append(['addDescr', f'new{self.new_n}', tmpl, r.random() < 0.85])
                     self.new_n += 1
             elif z < 0.9 and intx:
@@ -334,10 +351,11 @@ class World:
             elif z < 0.92 and alld:
                 # entity interface: write an existing entity (single or multi state), possibly dropping / adding a context state
                 cds = self.descr_handles(lambda d: d.is_context_descriptor)
+                stale = r.random() < 0.35
                 if cds and r.random() < 0.4:
-                    script['calls'].append(['writeEntity', r.choice(cds), r.randrange(1000), r.choice(['keep', 'drop', 'add'])])
-                elif leafish:
-                    script['calls'].append(['writeEntity', r.choice(leafish), r.randrange(1000), 'keep'])
+                    script['calls'].append(['writeEntity', self.pick(cds), r.randrange(1000), r.choice(['keep', 'drop', 'add']), stale])
+                elif templates:
+                    script['calls'].append(['writeEntity', self.pick(templates), r.randrange(1000), 'keep', stale])
             elif z < 0.94 and leafish:
                 # two removals on one path of the tree, in either order
                 h = r.choice(leafish)
@@ -592,13 +610,23 @@ class World:
                 self.mutate_state(st, call[2])
                 self.emit(f'setStateBody {H(call[1])} {self.sbody(st)}', 'ok')
             elif op == 'writeEntity':
-                _, h, n, how = call
-                try:
-                    ent = m.entities.by_handle(h)
-                except KeyError:
+                _, h, n, how = call[:4]
+                stale = len(call) > 4 and call[4]
+                ent = self.stale_entities.get(h) if stale else None
+                if ent is not None and m.descriptions.handle.get_one(h, allow_none=True) is None:
                     ent = None
                 if ent is None:
+                    try:
+                        ent = m.entities.by_handle(h)
+                    except KeyError:
+                        ent = None
+                if ent is None:
                     return
+                # what an application that fetched it now would still hold later
+                if ent.is_multi_state:
+                    self.stale_entities[h] = type(ent)(m, copy.deepcopy(ent.descriptor), copy.deepcopy(list(ent.states.values())))
+                else:
+                    self.stale_entities[h] = type(ent)(m, copy.deepcopy(ent.descriptor), copy.deepcopy(ent.state))
                 self.mutate_descr(ent.descriptor, n)
                 d = ent.descriptor
                 head = f'writeEntity {H(d.Handle)} {H(d.parent_handle)} {kind_of(d)} {d.DescriptorVersion} {self.dbody(d)} {H(d.source_mds)}'
